@@ -51,7 +51,13 @@ impl UploadValue {
     pub fn into_async_read(self) -> impl AsyncRead + Sync + Send + 'static {
         #[cfg(feature = "tempfile")]
         {
-            blocking::Unblock::new(self.content)
+            use std::io::{Seek, SeekFrom};
+
+            // every clone of an upload shares the read position of the one temporary
+            // file: start from the beginning, whatever was read through another clone
+            let mut content = self.content;
+            let _ = content.seek(SeekFrom::Start(0));
+            blocking::Unblock::new(content)
         }
 
         #[cfg(not(feature = "tempfile"))]
